@@ -245,6 +245,26 @@ def recursive(prog, fn):
     return False
 
 
+def view_helpers(prog):
+    """paths of private, non-trait functions of the sorted-list variants (or free functions of their modules) that
+    take no `&mut`"""
+    tree_traits = {f.trait_item.rsplit('::', 1)[0] for f in prog.fns.values() if f.trait_item and f.self_adt in prog.tree_adts}
+    lists = {f.self_adt for f in prog.fns.values() if f.trait_item and f.self_adt in prog.list_adts and f.trait_item.rsplit('::', 1)[0] in tree_traits}
+    mods = {a.rsplit('::', 1)[0].replace('::', '/') for a in lists}
+    out = set()
+    for f in prog.fns.values():
+        if f.is_closure or f.trait_item or f.vis == 'Public' or not f.info.get('mir'):
+            continue
+        if not (f.self_adt in lists or (f.self_adt is None and f.module in mods)):
+            continue
+        if f.body.locals[0]['ty'].split('<')[0] in lists:
+            continue        # constructors
+        if any((l['ty'] or '').startswith('&mut') for l in f.body.locals[1:f.body.arg_count + 1]):
+            continue
+        out.add(f.path)
+    return out
+
+
 def expand(prog):
     """the pre-pass; returns a record of what was expanded (for the evidence)"""
     record = []
@@ -280,7 +300,10 @@ def expand(prog):
                             if a is not None and a.kind == 'param' and a.args[0] not in flg.get(f.path, set()):
                                 flg.setdefault(f.path, set()).add(a.args[0])
                                 grew = True
-        if not cbp and not flg:
+        # read-only private helpers of the sorted-list variants (a shared `locate`, a result-to-handle conversion): the list
+        # rules are anchored on the public operations, so such helpers are expanded into them
+        view = view_helpers(prog)
+        if not cbp and not flg and not view:
             break
         rec = {}
         changed = False
@@ -291,7 +314,7 @@ def expand(prog):
             for c in F.body.calls:
                 cal = c.callee or {}
                 H = prog.fns.get(cal.get('path')) if cal.get('path') else None
-                if H is None or (H.path not in cbp and H.path not in flg) or H.path == F.path:
+                if H is None or (H.path not in cbp and H.path not in flg and H.path not in view) or H.path == F.path:
                     continue
                 if H.path not in rec:
                     rec[H.path] = recursive(prog, H)
@@ -303,7 +326,7 @@ def expand(prog):
                     if a is not None and a.kind == 'agg' and a.extra.get('akind') == 'closure' and a.extra.get('path') in prog.fns:
                         binding[k] = a.extra['path']
                 flags = [k for k in flg.get(H.path, ()) if k - 1 < len(c.args) and constant_arg(prog, c.args[k - 1])]
-                if (H.path in cbp and len(binding) == len(cbp[H.path])) or flags:
+                if (H.path in cbp and len(binding) == len(cbp[H.path])) or flags or (H.path in view and H.path not in cbp):
                     if len(binding) != len(cbp.get(H.path, {})):
                         binding = {k: v for k, v in binding.items()}
                     sites.append((c.point[0], H, binding, flags))
